@@ -11,6 +11,8 @@
 //	C  Contains / Validate on float64 envelopes and points incl. NaN, +-Inf, -0, subnormals
 //	K  float64 comparison primitives (validates the order-isomorphic key used by the model)
 //	Y  Union(a, b).Envelope() against the join of the operands' envelopes (valid lattice inputs)
+//	F  float64 boxes of all magnitudes (subnormal .. 1e300, degenerate and not, sides whose product
+//	   underflows / overflows): every envelope method, unary on a and binary on (a, b)
 //
 // Every float64 travels as the 16-digit hex of its IEEE-754 bits.
 package main
@@ -69,7 +71,64 @@ type gcfg struct {
 	holeOut   bool // some hole vertex outside the shell's box (invalid polygon; hypothesis false)
 	emptyRing bool // exterior ring empty although holes exist (invalid polygon)
 	maxDepth  int
+	latt      bool // lattice coordinates (extremes can be made unique)
+	long      bool // sequences of 16..70 points with the extremes placed at chosen positions
 }
+
+// longSeq draws n vertices and then moves the extreme X and Y ordinates to chosen positions (first,
+// second, each of the last four, or anywhere); on the lattice the moved extreme is pushed one step
+// beyond the rest so that it is attained at that position only.
+func (c gcfg) longSeq(r *lib.Rng, ct geom.CoordinatesType, n int, lattice bool) [][4]float64 {
+	vs := make([][4]float64, n)
+	for i := range vs {
+		vs[i] = c.vertex(r, ct)
+	}
+	pos := func() int {
+		switch r.Intn(8) {
+		case 0:
+			return 0
+		case 1:
+			return 1 % n
+		case 2:
+			return n - 1
+		case 3:
+			return (n - 2 + n) % n
+		case 4:
+			return (n - 3 + n) % n
+		case 5:
+			return (n - 4 + n) % n
+		default:
+			return r.Intn(n)
+		}
+	}
+	for axis := 0; axis < 2; axis++ {
+		for _, wantMax := range []bool{false, true} {
+			best := 0
+			for i := range vs {
+				a, b := vs[i][axis], vs[best][axis]
+				if math.IsNaN(a) || math.IsNaN(b) {
+					continue
+				}
+				if wantMax && a > b || !wantMax && a < b {
+					best = i
+				}
+			}
+			t := pos()
+			vs[best][axis], vs[t][axis] = vs[t][axis], vs[best][axis]
+			if lattice {
+				if wantMax {
+					vs[t][axis]++
+				} else {
+					vs[t][axis]--
+				}
+			}
+		}
+	}
+	return vs
+}
+
+// longLen covers all residues modulo 4 and 8 in 16..70
+func longLen(r *lib.Rng) int { return 16 + r.Intn(55) }
 
 func (c gcfg) vertex(r *lib.Rng, ct geom.CoordinatesType) [4]float64 {
 	var v [4]float64
@@ -102,6 +161,10 @@ func (c gcfg) point(r *lib.Rng, ct geom.CoordinatesType) *lib.Node {
 
 func (c gcfg) line(r *lib.Rng, ct geom.CoordinatesType) *lib.Node {
 	n := &lib.Node{Kind: lib.KLine, CT: ct}
+	if c.long && !r.Chance(1, 8) {
+		n.C = c.longSeq(r, ct, longLen(r), c.latt)
+		return n
+	}
 	k := 0
 	if !r.Chance(1, 5) {
 		k = r.Range(1, 6)
@@ -124,8 +187,14 @@ func (c gcfg) poly(r *lib.Rng, ct geom.CoordinatesType) *lib.Node {
 	}
 	shell := &lib.Node{Kind: lib.KLine, CT: c.kidCT(r, ct)}
 	m := r.Range(3, 6)
-	for j := 0; j < m; j++ {
-		shell.C = append(shell.C, c.vertex(r, shell.CT))
+	if c.long && !r.Chance(1, 8) {
+		// a closed ring of 16..70 points in total: the closing vertex repeats the first one, so
+		// "second to last" is the last free position
+		shell.C = c.longSeq(r, shell.CT, longLen(r)-1, c.latt)
+	} else {
+		for j := 0; j < m; j++ {
+			shell.C = append(shell.C, c.vertex(r, shell.CT))
+		}
 	}
 	shell.C = append(shell.C, shell.C[0])
 	lox, hix, loy, hiy := math.Inf(1), math.Inf(-1), math.Inf(1), math.Inf(-1)
@@ -323,7 +392,15 @@ func genGeometries(w *bufio.Writer, root *lib.Rng, n int, id *int, classes map[s
 		class := "lattice"
 		cfg.maxDepth = 3
 		switch i % 20 {
-		case 10, 11, 12, 13, 14:
+		case 7, 8, 9:
+			class = "longlattice"
+			cfg.coord = latticeCoord(r.Range(3, 9), r.Range(-4, 3))
+			cfg.long, cfg.latt = true, true
+		case 13, 14:
+			class = "longfloat"
+			cfg.coord = floatCoord(false)
+			cfg.long = true
+		case 10, 11, 12:
 			class = "float"
 			cfg.coord = floatCoord(false)
 		case 15, 16:
@@ -347,6 +424,9 @@ func genGeometries(w *bufio.Writer, root *lib.Rng, n int, id *int, classes map[s
 		force := -1
 		if class == "holeout" || class == "emptyring" {
 			force = int(lib.KPoly) + 3*r.Intn(2) // Polygon or MultiPolygon
+		} else if cfg.long {
+			// the types that hold sequences: LineString, Polygon, MultiLineString, MultiPolygon, collection
+			force = []int{int(lib.KLine), int(lib.KPoly), int(lib.KMLine), int(lib.KMPoly), int(lib.KColl), int(lib.KLine), int(lib.KPoly)}[(i/20)%7]
 		} else if i%3 == 0 {
 			force = (i / 3) % 7 // every type guaranteed
 		}
@@ -657,6 +737,114 @@ func genUnion(w *bufio.Writer, root *lib.Rng, n int, id *int) {
 	}
 }
 
+// ---------------------------------------------------------------- float64 boxes
+
+var scales = []float64{5e-324, 3e-310, 2.2250738585072014e-308, 1e-300, 1e-170, 1e-162, 1e-154, 1e-100, 1e-8, 1, 1e8, 1e100, 1e150, 1e154, 1e162, 1e300}
+
+// interval draws lo <= hi at the given scale: degenerate, a few units wide, or with a fractional width
+func interval(r *lib.Rng, s float64) (float64, float64) {
+	lo := s * float64(r.Range(-3, 3))
+	if r.Chance(1, 6) {
+		lo = s * (float64(r.Range(-3000, 3000)) / 1024)
+	}
+	switch r.Intn(5) {
+	case 0:
+		return lo, lo
+	case 1:
+		return lo, lo + s*(1+float64(r.Intn(1000))/512)
+	default:
+		return lo, lo + s*float64(r.Range(1, 4))
+	}
+}
+
+func floatBox(r *lib.Rng, sx, sy float64) (x0, y0, x1, y1 float64) {
+	x0, x1 = interval(r, sx)
+	y0, y1 = interval(r, sy)
+	return
+}
+
+func mkEnv(x0, y0, x1, y1 float64) geom.Envelope {
+	return geom.NewEnvelope(geom.XY{X: x1, Y: y0}, geom.XY{X: x0, Y: y1})
+}
+
+// related places an interval relative to [lo,hi] at scale s: equal, touching, separated by a gap of
+// a few units (also on the far side), overlapping, nested, or unrelated
+func related(r *lib.Rng, lo, hi, s float64) (float64, float64) {
+	w := s * float64(r.Range(0, 3))
+	switch r.Intn(8) {
+	case 0:
+		return lo, hi
+	case 1:
+		return hi, hi + w
+	case 2:
+		g := s * float64(r.Range(1, 3))
+		return hi + g, hi + g + w
+	case 3:
+		g := s * float64(r.Range(1, 3))
+		return lo - g - w, lo - g
+	case 4:
+		return lo + (hi-lo)/2, hi + w
+	case 5:
+		return lo + (hi-lo)/4, hi - (hi-lo)/4
+	case 6:
+		return lo - w, hi + w
+	default:
+		return interval(r, s)
+	}
+}
+
+func genFloatBoxes(w *bufio.Writer, root *lib.Rng, n int, id *int) {
+	for i := 0; i < n; i++ {
+		r := root.Fork()
+		sx := scales[r.Intn(len(scales))]
+		sy := sx
+		if r.Chance(1, 3) {
+			sy = scales[r.Intn(len(scales))]
+		}
+		x0, y0, x1, y1 := floatBox(r, sx, sy)
+		a := mkEnv(x0, y0, x1, y1)
+		var b geom.Envelope
+		switch {
+		case i%17 == 0:
+			// b stays empty
+		case i%17 == 1:
+			a = geom.Envelope{}
+			b = mkEnv(floatBox(r, sx, sy))
+		case r.Chance(1, 6):
+			// the far corner of the range: sums and gaps beyond MaxFloat64 / 2
+			h := math.MaxFloat64
+			k := func() float64 { return h / 10 * float64(r.Range(5, 9)) }
+			a = mkEnv(k(), -h, h, -k())
+			b = mkEnv(-h, k(), -k(), h)
+			if r.Bool() {
+				a, b = b, a
+			}
+		default:
+			u0, u1 := related(r, x0, x1, sx)
+			v0, v1 := related(r, y0, y1, sy)
+			b = mkEnv(u0, v0, u1, v1)
+		}
+		flags := b01(a.IsEmpty()) + b01(a.IsPoint()) + b01(a.IsLine()) + b01(a.IsRectangle()) + b01(a.Validate() == nil)
+		center := "E"
+		if c, ok := a.Center().XY(); ok {
+			center = hexf(c.X) + "," + hexf(c.Y)
+		}
+		d, dok := a.Distance(b)
+		probes := "--"
+		if lo, hi, ok := b.MinMaxXYs(); ok {
+			probes = b01(a.Contains(lo)) + b01(a.Contains(hi))
+		}
+		fields := []string{
+			fmt.Sprintf("%d", *id), "F", envStr(a), envStr(b), flags,
+			hexf(a.Width()), hexf(a.Height()), hexf(a.Area()), center,
+			lib.Dump(a.AsGeometry()), lib.Dump(a.BoundingDiagonal()),
+			b01(a.Intersects(b)) + b01(a.Covers(b)) + b01(dok), hexf(d), envStr(a.ExpandToIncludeEnvelope(b)), probes,
+		}
+		*id++
+		fmt.Fprintln(w, strings.Join(fields, "\t"))
+	}
+}
+
 func main() {
 	a := lib.ParseArgs()
 	w, done := a.Output()
@@ -681,12 +869,14 @@ func main() {
 	genContainsFloat(w, root.Fork(), a.N/2, &id)
 	genKeys(w, root.Fork(), a.N/4, &id)
 	genUnion(w, root.Fork(), a.N/10, &id)
+	genFloatBoxes(w, root.Fork(), a.N, &id)
 	stats := map[string]interface{}{
 		"geometry_classes": classes, "geometry_kinds_P_L_Y_MP_ML_MY_GC": kinds, "geometry_ctypes": cts,
 		"empty_geometries": empties,
-		"unary_envelopes": nu, "unary_lattice": lUnary, "pairs": np, "pair_lattice": lPair,
+		"unary_envelopes":  nu, "unary_lattice": lUnary, "pairs": np, "pair_lattice": lPair,
 		"triples": nt, "triple_lattice": lTriple, "new_envelope_lists": a.N / 4,
 		"float_contains": a.N / 2, "float_keys": a.N / 4, "union_pairs": a.N / 10,
+		"float_boxes": a.N, "float_box_scales": scales, "long_sequence_lengths": "16..70",
 	}
 	js, _ := json.Marshal(stats)
 	fmt.Fprintf(w, "#GEN\t%s\n", js)
